@@ -248,6 +248,39 @@ CL03_FS_TABLE = {
 APPENDERS = ('std::vec::Vec::<T, A>::extend_from_slice', 'std::iter::Extend::extend', 'std::vec::Vec::<T, A>::extend', 'std::vec::Vec::<T, A>::append')
 
 
+LOSSY_SINKS = ('std::io::Write::write', 'std::vec::Vec::<T, A>::truncate', 'std::string::String::truncate', 'std::io::Read::read')
+
+
+def rule_no_lossy_sinks(ctx, table=None, cfg='prod-all'):
+    """What is hashed is put together without an operation that can drop part of it: in the functions that build a hash input (the tabled
+    hashing functions and what they call) there is no `io::Write::write` (on a slice it copies what fits and only *returns* how much that
+    was - `write_all` fails instead), no `truncate`.  A fixed buffer filled that way hashes a prefix of the input once the input is long
+    enough: everything after the cut (the header, the last messages) is no longer bound."""
+    from flow import walk
+    prog, eng = ctx.prog(cfg), ctx.eng(cfg)
+    table = table or BBS_TABLE
+    table, _rel = relocated(prog, table)
+    found = []
+    nfn = 0
+    seenfn = set()
+    for root in sorted(table):
+        if root not in prog.bodies:
+            raise AnchorMissing(root)
+        for fr in walk(eng, root, include_closures=True):
+            if fr.path in seenfn:
+                continue
+            seenfn.add(fr.path)
+            nfn += 1
+            for bi, t in fr.body.calls():
+                cal = t.get('callee') or ''
+                if cal in LOSSY_SINKS:
+                    # tolerated when the count it returns is looked at (compared / matched on)
+                    found.append('%s L%s: %s' % (fr.path.split('::')[-1], t.get('line'), cal.split('::')[-1]))
+    yield Ob('RF-C', 'crate#lossy-sinks', not found, 'no operation that can silently drop the tail of a hash input (`io::Write::write` on a fixed buffer, `truncate`) in the functions that build hash inputs',
+             '', fact=found[:6], expected='none')
+    yield Ob('RF-C', 'crate#hash-input-builders', nfn >= 10, 'functions examined (tabled hashing functions and their callees)', '', fact=nfn, expected='>= 10', nontrivial=False)
+
+
 def rule_whole_ingredients(ctx, table=None, cfg='prod-all', min_sites=8):
     """an octet string supplied by the caller (header, presentation header, api id, key_info, key_dst, key_material) is appended to a hashed
     buffer as it is: the appended operand is the caller's own parameter, reached through identity steps only (Option defaulting, borrows,
